@@ -52,16 +52,16 @@ type TypeID struct {
 	Pu   string `json:"pu"`
 }
 type Req struct {
-	Ep   string   `json:"ep"`
-	T    TypeID   `json:"T"`
-	Sel  []string `json:"sel"`
-	Gb   []string `json:"gb"`
-	Agg  string   `json:"agg"`
-	S    int      `json:"s"`
-	E    int      `json:"e"`
-	Name string   `json:"name"`
-	Ln   []string `json:"ln"`
-	M    bool     `json:"m"`
+	Ep   string     `json:"ep"`
+	T    TypeID     `json:"T"`
+	Sel  []string   `json:"sel"`
+	Gb   []string   `json:"gb"`
+	Agg  string     `json:"agg"`
+	S    int        `json:"s"`
+	E    int        `json:"e"`
+	Name string     `json:"name"`
+	Ln   []string   `json:"ln"`
+	Sels [][]string `json:"sels"` // LabelNames / LabelValues / Series: the list of matchers (an empty matcher is {})
 }
 type Case struct {
 	Cfg   string          `json:"cfg"`
